@@ -1,26 +1,27 @@
 (* C12 Fast-sync acceptance.  Statements only; every proof is `exact <term>`.
 
-   Model: Model/FastSync.v (core.fastForward = CheckBlock; frame hash; Reset -- and
-   Node.fastForward = getBestFastForwardResponse; proxy.Restore; core.fastForward).
+   Model: Model/FastSync.v.  The tree now implements the REPAIRED rule (/repo a556752 CheckBlock counts a
+   validator once; 52c591c Node.fastForward checks before proxy.Restore; a41e4c4 only signers the node
+   already knows are counted): [ff_decide_fixed], [core_ff_fixed], [node_ff_fixed] with [known] = the
+   keys of c.peers, c.genesisPeers, c.validators and the store's peer sets.  The headline theorems
+   (part 1) are about that rule, and the correspondence (bin/props/ffcommon.py) REQUIRES the tree to
+   implement it.
 
-   The property as stated ("adopted only if ... signatures of more than one third of DISTINCT
-   members verify ...; a refused response leaves hashgraph, store, validator sets and application
-   untouched") is FALSE of the unchanged code in three ways, each refuted below with a witness
-   (Model/FastSyncWitness.v) that harness/cmd/ff replays on the real core / Node on every run:
-     C12_accept_sound_refuted            one signer listed under several spellings of its key
-     C12_reject_noop_refuted             the application is restored before anything is checked
-     C12_reset_failure_not_noop_refuted  a response that passes the checks but whose Reset fails
-   What does hold of the unchanged code is proved (C12_accept_checks, C12_reject_noop_core, ...),
-   and the full property is proved for the repaired rule (ff_decide_fixed / node_ff_fixed:
-   dedupe signers on the canonical key, count only signers the node knows, check before
-   restore), to which the correspondence switches (FFMODE fixed) once the repair is applied. *)
+   Part 2 keeps, as REGRESSION WITNESSES, the refutations of the rule the code had before those
+   commits ([ff_decide], [core_ff], [node_ff]): each documents why one repair matters, is replayed
+   by harness/cmd/ff on every run, and is what the check reports again if the repair is lost.
+
+   Part 3: what is still FALSE of the repaired tree (finding F4, open): a response that passes every
+   check but whose frame Hashgraph.Reset cannot insert leaves the node emptied. *)
 From Coq Require Import ZArith List Bool Permutation.
 From V Require Import Model.Quorum Model.FastSync Model.FastSyncWitness Proofs.FastSyncProofs.
 Import ListNotations.
 Open Scope Z_scope.
 
-(** * The specification-side signer set is the intended one: the distinct members of the frame's
-      validator set for which the block carries a verifying signature, each once *)
+(** * 1. The rule the tree implements *)
+
+(* the specification-side signer set: the distinct members of the frame's validator set for which
+   the block carries a verifying signature, each once *)
 Theorem C12_signer_set_exact : forall ps sigs,
   NoDup (distinct_valid_signers ps sigs) /\
   forall v, In v (distinct_valid_signers ps sigs) <->
@@ -28,57 +29,79 @@ Theorem C12_signer_set_exact : forall ps sigs,
 Proof. exact (fun ps sigs => conj (distinct_valid_signers_NoDup ps sigs) (distinct_valid_signers_spec ps sigs)). Qed.
 Print Assumptions C12_signer_set_exact.
 
-(** * What holds of the unchanged code *)
+(* THE PROPERTY: a response is adopted only if the frame hashes to the block's frame hash, the frame's
+   validator set hashes to the block's peer-set hash, and more than one third of the DISTINCT members
+   of that set have a verifying signature (accept_sound_statement, Proofs/FastSyncProofs.v) *)
+Theorem C12_accept_sound : forall known, accept_sound_statement (ff_decide_fixed known).
+Proof. exact accept_fixed_sound_statement. Qed.
+Print Assumptions C12_accept_sound.
 
-(* an adopted response has passed: frame digest, peer-set digest, and more than TrustCount
-   verifying map ENTRIES of members (hence 3 * entries > Len) -- entries, not signers *)
-Theorem C12_accept_checks : forall b f,
-  ff_decide b f = FFOk ->
+(* the same for the boolean decision [accept_fixed], spelled out *)
+Theorem C12_accept_sound_bool : forall known b f,
+  accept_fixed known b f = true ->
   fb_frame_hash b = ff_hash f /\
   fb_peers_hash b = Some (peers_digest (ff_peers f)) /\
-  fs_tc (ff_peers f) < valid_sigs (ff_peers f) (fb_sigs b) /\
-  3 * valid_sigs (ff_peers f) (fb_sigs b) > fs_len (ff_peers f).
-Proof. exact ff_accept_checks. Qed.
-Print Assumptions C12_accept_checks.
+  3 * Z.of_nat (length (distinct_valid_signers (ff_peers f) (fb_sigs b))) > fs_len (ff_peers f).
+Proof. exact accept_fixed_sound_bool. Qed.
+Print Assumptions C12_accept_sound_bool.
 
-(* the decision does not depend on the iteration order of the Go map block.Signatures *)
-Theorem C12_decision_order_independent : forall i rr ph fh s s' f,
-  Permutation s s' -> ff_decide (mkBlock i rr ph fh s) f = ff_decide (mkBlock i rr ph fh s') f.
-Proof. exact ff_decide_perm. Qed.
+(* tampering with the block BODY: signatures honest validators made over the original body do not
+   verify on another body; if every entry that does verify was made with an adversary key and the
+   adversary owns at most a third of the declared set, the response is refused *)
+Theorem C12_tamper_refused : forall known, tamper_refused_statement (ff_decide_fixed known).
+Proof. exact tamper_refused_fixed_statement. Qed.
+Print Assumptions C12_tamper_refused.
+
+(* tampering with the FRAME: a block adopted with frame f is adopted with no frame that hashes
+   differently (round, timestamp, roots, events and their annotations, peer-set history, peer
+   addresses ...) nor with a frame declaring another validator key list *)
+Theorem C12_frame_tamper_refused : forall known b f f',
+  ff_hash f' <> ff_hash f \/ peers_digest (ff_peers f') <> peers_digest (ff_peers f) ->
+  ff_decide_fixed known b f = FFOk -> ff_decide_fixed known b f' <> FFOk.
+Proof. exact (fun known b f f' HD H => frame_tamper_refused_fixed known b f f' H HD). Qed.
+Print Assumptions C12_frame_tamper_refused.
+
+(* re-spelled or repeated entries change nothing: the decision only depends on the signature map as
+   a multiset (Go iterates it in random order) *)
+Theorem C12_decision_order_independent : forall known i rr ph fh s s' f,
+  Permutation s s' ->
+  ff_decide_fixed known (mkBlock i rr ph fh s) f = ff_decide_fixed known (mkBlock i rr ph fh s') f.
+Proof. exact ff_decide_fixed_perm. Qed.
 Print Assumptions C12_decision_order_independent.
 
 (* core level: a response refused by CheckBlock or by the frame-hash test (or on which CheckBlock
    panics) leaves hashgraph, store, validator sets, peer selector and pools exactly as they were *)
-Theorem C12_reject_noop_core : forall st b f r st',
-  core_ff st b f = (r, st') ->
+Theorem C12_reject_noop_core : forall known st b f r st',
+  core_ff_fixed known st b f = (r, st') ->
   r = FFWrongPeerSet \/ r = FFNotEnoughSigs \/ r = FFBadFrameHash \/ r = FFPanicCheck ->
   st' = st.
-Proof. exact core_ff_reject_noop. Qed.
+Proof. exact core_ff_fixed_reject_noop. Qed.
 Print Assumptions C12_reject_noop_core.
+
+(* node level: ... and the application and the node state as well *)
+Theorem C12_reject_noop_node : forall known ns l r ns',
+  node_ff_fixed known ns l = (Some r, ns') ->
+  r = FFWrongPeerSet \/ r = FFNotEnoughSigs \/ r = FFBadFrameHash \/ r = FFPanicCheck ->
+  ns' = ns.
+Proof. exact node_ff_fixed_reject_noop. Qed.
+Print Assumptions C12_reject_noop_node.
+
+(* the application is only ever restored from the chosen response, after it passed every check *)
+Theorem C12_restore_only_checked : forall known ns l r ns',
+  node_ff_fixed known ns l = (r, ns') -> ns_app ns' <> ns_app ns ->
+  exists x, best_response l = Some x /\ check_ff_fixed known (r_block x) (r_frame x) = FFOk /\
+            ns_app ns' = r_snapshot x :: ns_app ns.
+Proof. exact node_ff_fixed_restore_checked. Qed.
+Print Assumptions C12_restore_only_checked.
 
 (* an adopted response installs exactly the state Reset derives from (block, frame), the frame's
    validator set as peers (peer selector) and the latest set of the frame's peer-set history as
-   validators; nothing else of the core is written *)
-Theorem C12_accept_state : forall st b f st',
-  core_ff st b f = (FFOk, st') ->
+   validators (/repo 3b6a6ac); nothing else of the core is written *)
+Theorem C12_accept_state : forall known st b f st',
+  core_ff_fixed known st b f = (FFOk, st') ->
   st' = mkCore (HgReset b f) (new_validators f) (ff_peers f) (cs_rest st).
-Proof. exact core_ff_accept_state. Qed.
+Proof. exact core_ff_fixed_accept_state. Qed.
 Print Assumptions C12_accept_state.
-
-(* tampering with the frame: a block adopted with frame f is adopted with no frame that hashes
-   differently (any change of round, timestamp, roots, events or their annotations, peer-set history,
-   peer addresses ...) nor with a frame declaring another validator key list -- unchanged code and
-   repaired rule alike.  (Tampering with the block BODY is a matter of signatures:
-   C12_tamper_refused_fixed / C12_tamper_refused_refuted.) *)
-Theorem C12_frame_tamper_refused : forall b f f',
-  ff_hash f' <> ff_hash f \/ peers_digest (ff_peers f') <> peers_digest (ff_peers f) ->
-  (ff_decide b f = FFOk -> ff_decide b f' <> FFOk) /\
-  (forall known, ff_decide_fixed known b f = FFOk -> ff_decide_fixed known b f' <> FFOk).
-Proof.
-  exact (fun b f f' HD => conj (fun H => frame_tamper_refused b f f' H HD)
-                               (fun known H => frame_tamper_refused_fixed known b f f' H HD)).
-Qed.
-Print Assumptions C12_frame_tamper_refused.
 
 (* Node.fastForward only ever considers an answer it received, with a block index > 0 *)
 Theorem C12_best_response_received : forall l x,
@@ -86,108 +109,17 @@ Theorem C12_best_response_received : forall l x,
 Proof. exact best_response_in. Qed.
 Print Assumptions C12_best_response_received.
 
-(** * Refutations of the full statements on the faithful model (each replayed on the real code) *)
-
-(* full statement: adoption implies both digests match and MORE THAN ONE THIRD OF THE DISTINCT
-   MEMBERS have a verifying signature (accept_sound_statement in Proofs/FastSyncProofs.v).
-   Witness w_dup_block: validator 1 of 4 under three spellings; kind sigs.reencode-1-signer;
-   oracle class duplicate-signer-counted *)
-Theorem C12_accept_sound_refuted : ~ accept_sound_statement ff_decide.
-Proof. exact accept_sound_refuted. Qed.
-Print Assumptions C12_accept_sound_refuted.
-
-Theorem C12_distinct_signers_refuted : exists b f,
-  NoDup (map se_key (fb_sigs b)) /\ ff_decide b f = FFOk /\
-  distinct_valid_signers (ff_peers f) (fb_sigs b) = [1] /\ fs_len (ff_peers f) = 4.
-Proof. exact distinct_signers_refuted. Qed.
-Print Assumptions C12_distinct_signers_refuted.
-
-(* full statement: a refused response leaves core, application and node state untouched
-   (reject_noop_statement).  Witness w_tampered as the only answer: refused with "not enough
-   valid signatures" AFTER proxy.Restore(snapshot 7); oracle class restored-before-check *)
-Theorem C12_reject_noop_refuted : ~ reject_noop_statement node_ff.
-Proof. exact reject_noop_refuted. Qed.
-Print Assumptions C12_reject_noop_refuted.
-
-Theorem C12_restore_before_check_refuted : exists ns l ns',
-  node_ff ns l = (Some FFNotEnoughSigs, ns') /\ ns_core ns' = ns_core ns /\ ns_app ns' <> ns_app ns.
-Proof. exact restore_before_check_refuted. Qed.
-Print Assumptions C12_restore_before_check_refuted.
-
-(* a response that passes both checks (self-made set {4}, self-signed) but whose Reset fails after
-   the state was cleared: refused, and the core is NOT as it was.  kind
-   forged.set*.events-keep.peersets-forged; oracle class reject-not-noop *)
-Theorem C12_reset_failure_not_noop_refuted : exists st b f st',
-  core_ff st b f = (FFResetError, st') /\ st' <> st.
-Proof. exact reset_failure_not_noop_refuted. Qed.
-Print Assumptions C12_reset_failure_not_noop_refuted.
-
-(* tampering (tamper_refused_statement): if every entry that verifies on this body was made with
-   an adversary key and the adversary owns at most a third of the declared set, the response is
-   refused -- false of the code: the adversary owns key 1 only (1 of 4 members) *)
-Theorem C12_tamper_refused_refuted : ~ tamper_refused_statement ff_decide.
-Proof. exact tamper_refused_refuted. Qed.
-Print Assumptions C12_tamper_refused_refuted.
-
-(** * The repaired rule *)
-
-Theorem C12_accept_sound_fixed : forall known, accept_sound_statement (ff_decide_fixed known).
-Proof. exact accept_fixed_sound_statement. Qed.
-Print Assumptions C12_accept_sound_fixed.
-
-(* the same, for the boolean decision [accept_fixed] *)
-Theorem C12_accept_sound : forall known b f,
-  accept_fixed known b f = true ->
-  fb_frame_hash b = ff_hash f /\
-  fb_peers_hash b = Some (peers_digest (ff_peers f)) /\
-  3 * Z.of_nat (length (distinct_valid_signers (ff_peers f) (fb_sigs b))) > fs_len (ff_peers f).
-Proof. exact accept_fixed_sound_bool. Qed.
-Print Assumptions C12_accept_sound.
-
-(* whatever field of the block body was changed, signatures honest validators made over the
-   original body do not verify; for a tampered frame or validator set the digests differ
-   (C12_accept_sound_fixed) *)
-Theorem C12_tamper_refused_fixed : forall known, tamper_refused_statement (ff_decide_fixed known).
-Proof. exact tamper_refused_fixed_statement. Qed.
-Print Assumptions C12_tamper_refused_fixed.
-
-(* repaired Node.fastForward: a response refused by the checks leaves core, application and node
-   state untouched ... *)
-Theorem C12_reject_noop_node_fixed : forall known ns l r ns',
-  node_ff_fixed known ns l = (Some r, ns') ->
-  r = FFWrongPeerSet \/ r = FFNotEnoughSigs \/ r = FFBadFrameHash \/ r = FFPanicCheck ->
-  ns' = ns.
-Proof. exact node_ff_fixed_reject_noop. Qed.
-Print Assumptions C12_reject_noop_node_fixed.
-
-(* ... and the application is only ever restored from a response that passed every check *)
-Theorem C12_restore_only_checked_fixed : forall known ns l r ns',
-  node_ff_fixed known ns l = (r, ns') -> ns_app ns' <> ns_app ns ->
-  exists x, best_response l = Some x /\ check_ff_fixed known (r_block x) (r_frame x) = FFOk /\
-            ns_app ns' = r_snapshot x :: ns_app ns.
-Proof. exact node_ff_fixed_restore_checked. Qed.
-Print Assumptions C12_restore_only_checked_fixed.
-
-(* the repair only removes acceptances (on responses on which the unchanged code does not panic) *)
-Theorem C12_fixed_stricter : forall known b f,
-  existsb se_short (fb_sigs b) = false ->
-  existsb (verify_panics (ff_peers f)) (fb_sigs b) = false ->
-  ff_decide_fixed known b f = FFOk -> ff_decide b f = FFOk.
-Proof. exact fixed_implies_current. Qed.
-Print Assumptions C12_fixed_stricter.
-
-(* The three repairs are separate commits.  The correspondence runs the switchable rule
-   (check_block_gen ... with one switch per repair) so that it stays exact on a partially repaired
-   tree; at its end points it IS the unchanged rule resp. the repaired rule of the theorems above,
-   and whatever the switches a response refused by the checks leaves the core untouched. *)
+(* the rule run by the correspondence (one switch per repair) IS the repaired rule when all switches
+   are on and the pre-repair rule when all are off; with any combination of switches a response
+   refused by the checks leaves the core untouched *)
 Theorem C12_rule_switches_exact : forall known,
-  (forall st b f, core_ff_gen rule_current known st b f = core_ff st b f) /\
-  (forall ns l, node_ff_gen rule_current known ns l = node_ff ns l) /\
   (forall st b f, core_ff_gen rule_fixed known st b f = core_ff_fixed known st b f) /\
-  (forall ns l, node_ff_gen rule_fixed known ns l = node_ff_fixed known ns l).
+  (forall ns l, node_ff_gen rule_fixed known ns l = node_ff_fixed known ns l) /\
+  (forall st b f, core_ff_gen rule_current known st b f = core_ff st b f) /\
+  (forall ns l, node_ff_gen rule_current known ns l = node_ff ns l).
 Proof.
-  exact (fun known => conj (gen_current_core known) (conj (gen_current_node known)
-           (conj (gen_fixed_core known) (gen_fixed_node known)))).
+  exact (fun known => conj (gen_fixed_core known) (conj (gen_fixed_node known)
+           (conj (gen_current_core known) (gen_current_node known)))).
 Qed.
 Print Assumptions C12_rule_switches_exact.
 
@@ -198,11 +130,82 @@ Theorem C12_reject_noop_core_any_rule : forall rl known st b f r st',
 Proof. exact core_ff_gen_reject_noop. Qed.
 Print Assumptions C12_reject_noop_core_any_rule.
 
-(** * Non-vacuity: an honest response (3 of 4 distinct known validators sign) is adopted by both
-      rules; the repaired rule refuses the respelled-signer response and does not restore the
-      application for a refused answer *)
+(** * 2. Regression witnesses: the rule before a556752 / 52c591c / a41e4c4 *)
+
+(* what that rule did guarantee: digests, and more than TrustCount verifying map ENTRIES *)
+Theorem C12_old_rule_accept_checks : forall b f,
+  ff_decide b f = FFOk ->
+  fb_frame_hash b = ff_hash f /\
+  fb_peers_hash b = Some (peers_digest (ff_peers f)) /\
+  fs_tc (ff_peers f) < valid_sigs (ff_peers f) (fb_sigs b) /\
+  3 * valid_sigs (ff_peers f) (fb_sigs b) > fs_len (ff_peers f).
+Proof. exact ff_accept_checks. Qed.
+Print Assumptions C12_old_rule_accept_checks.
+
+(* before a556752: one validator listed under several spellings of its key ("0X<UPPER>",
+   "0x<lower>", "zz<lower>") is counted once per spelling.  Witness w_dup_block: validator 1 of 4,
+   three entries > TrustCount = 2.  harness kind sigs.reencode-1-signer; oracle class
+   duplicate-signer-counted *)
+Theorem C12_old_rule_counts_spellings : ~ accept_sound_statement ff_decide.
+Proof. exact accept_sound_refuted. Qed.
+Print Assumptions C12_old_rule_counts_spellings.
+
+Theorem C12_old_rule_counts_spellings_witness : exists b f,
+  NoDup (map se_key (fb_sigs b)) /\ ff_decide b f = FFOk /\
+  distinct_valid_signers (ff_peers f) (fb_sigs b) = [1] /\ fs_len (ff_peers f) = 4 /\
+  ff_decide_fixed w_known b f = FFNotEnoughSigs.
+Proof.
+  exact (ex_intro _ w_dup_block (ex_intro _ w_frame4
+    (match distinct_signers_refuted_witness with conj a (conj b (conj c d)) => conj a (conj b (conj c (conj d eq_refl))) end))).
+Qed.
+Print Assumptions C12_old_rule_counts_spellings_witness.
+
+(* ... so an adversary owning ONE key of four got a tampered body adopted *)
+Theorem C12_old_rule_tamper_adopted : ~ tamper_refused_statement ff_decide.
+Proof. exact tamper_refused_refuted. Qed.
+Print Assumptions C12_old_rule_tamper_adopted.
+
+(* before 52c591c: Node.fastForward called proxy.Restore before core.fastForward checked anything.
+   Witness w_tampered as the only answer: refused with "not enough valid signatures" AFTER
+   Restore(snapshot 7).  harness NF lines; oracle class restored-before-check *)
+Theorem C12_old_rule_restores_before_check : exists ns l ns',
+  node_ff ns l = (Some FFNotEnoughSigs, ns') /\ ns_core ns' = ns_core ns /\ ns_app ns' <> ns_app ns.
+Proof. exact restore_before_check_refuted. Qed.
+Print Assumptions C12_old_rule_restores_before_check.
+
+Theorem C12_old_rule_reject_not_noop : ~ reject_noop_statement node_ff.
+Proof. exact reject_noop_refuted. Qed.
+Print Assumptions C12_old_rule_reject_not_noop.
+
+(* the repairs only remove acceptances (on responses on which the old code did not panic) *)
+Theorem C12_fixed_stricter : forall known b f,
+  existsb se_short (fb_sigs b) = false ->
+  existsb (verify_panics (ff_peers f)) (fb_sigs b) = false ->
+  ff_decide_fixed known b f = FFOk -> ff_decide b f = FFOk.
+Proof. exact fixed_implies_current. Qed.
+Print Assumptions C12_fixed_stricter.
+
+(** * 3. Still false of the repaired tree (finding F4, open) *)
+
+(* "a refused response leaves the node untouched" (reject_noop_statement) fails for the class
+   FFResetError: validators 1, 2, 3 - known to the node, more than a third - sign a frame that
+   Hashgraph.Reset cannot insert (witness w_byz): every check passes, the application is restored,
+   Reset clears hashgraph and store and then fails.  harness kinds byzantine.quorum-signs.*; oracle
+   classes reject-not-noop / restored-then-reset-failed.  Not reachable by strangers any more
+   (C14_no_strangers), nor with at most a third of Byzantine validators (C12_tamper_refused). *)
+Theorem C12_reset_failure_not_noop : ~ reject_noop_statement (node_ff_fixed w_known).
+Proof. exact reject_noop_fixed_refuted. Qed.
+Print Assumptions C12_reset_failure_not_noop.
+
+Theorem C12_reset_failure_not_noop_core : exists st b f st',
+  core_ff st b f = (FFResetError, st') /\ st' <> st.
+Proof. exact reset_failure_not_noop_refuted. Qed.
+Print Assumptions C12_reset_failure_not_noop_core.
+
+(** * Non-vacuity: an honest response (3 of 4 distinct known validators sign) is adopted; the
+      respelled-signer response and the tampered one are refused, the latter without restoring the
+      application; a checked response is restored from *)
 Example C12_example :
-  ff_decide w_good_block w_frame4 = FFOk /\
   ff_decide_fixed w_known w_good_block w_frame4 = FFOk /\
   distinct_valid_signers w_set4 (fb_sigs w_good_block) = [3; 1; 2] /\
   ff_decide_fixed w_known w_dup_block w_frame4 = FFNotEnoughSigs /\
